@@ -117,7 +117,14 @@ class ComponentLevel2( ComponentLevel1 ):
       name_rd[ name ]   = _rd   = []
       name_wr[ name ]   = _wr   = []
       name_fc[ name ]   = _fc   = []
-      AstHelper.extract_reads_writes_calls( s, func, _ast, _rd, _wr, _fc )
+      try:
+        AstHelper.extract_reads_writes_calls( s, func, _ast, _rd, _wr, _fc )
+      except Exception:
+        # don't keep half-filled entries: a later instance of this class
+        # would take them for the result of a successful analysis
+        for cache in ( name_info, name_rd, name_wr, name_fc ):
+          cache.pop( name, None )
+        raise
 
   def _elaborate_read_write_func( s ):
 
